@@ -6,6 +6,7 @@ sys.path.insert(0, os.path.dirname(os.path.abspath(__file__)))
 import pipeline, render, gen, dumpparse
 
 VERIF = "/verif"
+OUT = os.environ.get("VERIF_OUT", VERIF)   # where evidence/ and replays/ are written
 LEAN_DIR = os.path.join(VERIF, "lean")
 ALLOWED_AXIOMS = {"propext", "Classical.choice", "Quot.sound"}
 PROPS = ["C%02d" % i for i in range(1, 20)]
@@ -482,8 +483,8 @@ def main(argv):
         if k["property"] == prop and any(h is k for h, _ in known_hits):
             print("KNOWN-FINDING: property=%s %s" % (prop, k["what"]))
 
-    os.makedirs(os.path.join(VERIF, "replays", prop), exist_ok=True)
-    os.makedirs(os.path.join(VERIF, "evidence"), exist_ok=True)
+    os.makedirs(os.path.join(OUT, "replays", prop), exist_ok=True)
+    os.makedirs(os.path.join(OUT, "evidence"), exist_ok=True)
     table = {d["name"]: d for d in res["decls"]}
     rc = 0
     out_lines = []
@@ -491,7 +492,7 @@ def main(argv):
     corr = [f for f in violations if f.kind == "correspondence"]
 
     def write_replay(n, payload):
-        path = os.path.join(VERIF, "replays", prop, "%d.json" % n)
+        path = os.path.join(OUT, "replays", prop, "%d.json" % n)
         with open(path, "w") as fh:
             json.dump(payload, fh, indent=1)
         return path
@@ -544,7 +545,7 @@ def main(argv):
         "wall_s": round(time.time() - t0, 2),
         "violations": len(real) + (1 if (rc == 1 and not real) else 0),
     }
-    with open(os.path.join(VERIF, "evidence", "%s.json" % prop), "w") as fh:
+    with open(os.path.join(OUT, "evidence", "%s.json" % prop), "w") as fh:
         json.dump(evidence, fh, indent=1)
     for l in out_lines:
         print(l)
